@@ -90,6 +90,8 @@ def program(draw, tier):
                 node["emit"] = "sched_now"
         if draw(st.integers(0, 7)) == 0:
             node["schedule_on_start"] = True
+        if draw(st.integers(0, 3)) == 0:
+            node["via_unique"] = True     # wired through Wiring::add_unique_node (never interned) instead of add_node
         # a quarter of the eligible nodes are wired as real static nodes (static_node.h selector / injection code)
         int_ports = [p for p in ports if p not in structs]
         if not sink and int_ports and draw(st.integers(0, 3)) == 0:
